@@ -122,7 +122,7 @@ static void Worker(TracedPool * pool, Mailbox * mb, unsigned seed, int nOps)
       #define CHECK(r) do {if (((r)())&&((r)()->state != 42)) Bad("a referenced object was recycled (released early)");} while(0)
       for (int k=0; k<nOps; k++) {
          const int a = (int)(gen()%3), b = (int)(gen()%3);
-         switch(gen()%8) {
+         switch(gen()%10) {
             case 0: {Obj * o = pool->ObtainObject(); if (o) {if (o->state != 0) Bad("pool handed out an object that is not in the default state"); o->state = 42; o->serial = ++g_serial; TLine("Obtain", ObjId(o)); slots[a] = ObjRef(o);}} break;
             case 1: CHECK(slots[b]); slots[a] = slots[b]; break;
             case 2: slots[a].Reset(); break;
@@ -131,6 +131,8 @@ static void Worker(TracedPool * pool, Mailbox * mb, unsigned seed, int nOps)
             case 5: {DECLARE_MUTEXGUARD(mb->m); mb->slot = slots[a];} break;
             case 6: {ConstObjRef c = AddConstToRef(slots[a]); ObjRef back = CastAwayConstFromRef(c); CHECK(back); slots[b] = back;} break;
             case 7: {ObjRef moved(std::move(slots[a])); CHECK(moved); slots[b] = std::move(moved);} break;
+            case 8: if (slots[a]()) {ObjRef alias(slots[a](), false); alias.SetRef(slots[a](), true); CHECK(alias);} break;                    // a non-counting alias starts counting (same item): +1, and -1 when it dies
+            case 9: if (slots[a]()) {ObjRef alias(slots[a]); alias.SetRef(slots[a](), false); CHECK(alias);} break;                             // a counting alias stops counting (same item): -1 now, nothing when it dies
          }
          for (int i=0; i<3; i++) CHECK(slots[i]);
       }
